@@ -98,6 +98,56 @@ theorem c12_other_streams_untouched (st : State) (h : WF st) (f : Frame) (b : Be
             cases hs'
             rw [oidOf_frameReceived_ne st' oid s cf j (by rw [hss, hcs]; exact hj)]; exact hoid
 
+/-- **partial frames of other streams are not disturbed**: whatever frame arrives - well-formed or
+not, for a live, finished or unknown stream, whatever the handler does - the fragments the
+reassembly cache holds for every *other* stream are exactly what they were -/
+theorem c12_other_partial_frames_untouched (st : State) (h : WF st) (f : Frame) (b : Behaviour) (j : Nat) (hj : j ≠ f.sid) :
+    (step st (.recv f b)).1.partialOf j = st.partialOf j := by
+  simp only [step]
+  unfold recvStep
+  split
+  · rfl
+  · have hspec := cacheAppend_spec st h f
+    generalize hgen : (if isFragmentable f.ty = true then cacheAppend st f else (st, some (Except.ok f))) = r
+    have hsid : ∀ cf, r.2 = some (.ok cf) → cf.sid = f.sid := by
+      intro cf hcf
+      rw [← hgen] at hcf
+      split at hcf
+      · exact hspec.2.1 cf hcf
+      · simp only [Option.some.injEq, Except.ok.injEq] at hcf; rw [← hcf]
+    have hp : r.1.partialOf j = st.partialOf j := by
+      rw [← hgen]; split
+      · exact partialOf_cacheAppend_ne st f j hj
+      · rfl
+    have hw : WF r.1 := by
+      rw [← hgen]; split
+      · exact hspec.1
+      · exact h
+    rcases r with ⟨st', c⟩
+    simp only at hsid hp hw ⊢
+    split
+    · exact hp
+    · exact hp
+    · rename_i _ cf
+      have hcs := hsid cf rfl
+      split
+      · rw [partialOf_handleByType_ne st' cf b j (by rw [hcs]; exact hj)]; exact hp
+      · split
+        · exact hp
+        · split
+          · exact hp
+          · rename_i _ oid ho _ s hs
+            obtain ⟨s', hs', hss⟩ := oidOf_obj st' hw cf.sid oid ho
+            rw [hs] at hs'
+            cases hs'
+            rw [partialOf_frameReceived_ne st' oid s cf j (by rw [hss, hcs]; exact hj)]; exact hp
+
+/-- non-vacuity: a first fragment on stream 1 is held while a frame of the wrong type arrives behind a fragment on stream 3 -/
+example : (run (init 2) [.recv { ty := .requestResponse, sid := 1, follows := true, data := [1] } .ok,
+                          .recv { ty := .requestResponse, sid := 3, follows := true, data := [2] } .ok,
+                          .recv { ty := .requestResponse, sid := 3, data := [3] } .ok]).1.partialOf 1 =
+    [(1, { ty := .requestResponse, sid := 1, follows := true, data := [1] })] := by decide +kernel
+
 /-- **a failing handler is answered with an ERROR on the offending stream and nothing else
 happens**: for a request on a fresh, non-zero stream whose handler raises, the only effects are the
 handler call and one APPLICATION_ERROR frame on that stream; no stream is registered -/
